@@ -253,7 +253,12 @@ def alphabet(rng, n_base):
     for k in range(n_base):
         fp, an = combos[k % 4] if k < 4 else (rng.random() < 0.5, rng.random() < 0.25)
         prec = "double" if k % 3 != 2 else "single"
-        c = sc.mk_case(rng, footprint=fp, analytic=an, precision=prec)
+        if k in (0, 2):
+            # dispersion bases that admit a same-padded-extent neighbour ("s"): at least 4 x 4 cells, square cells, whole-cell halo
+            nx_, ny_ = rng.choice([4, 5, 6]), rng.choice([4, 5, 6])
+            c = sc.mk_case(rng, footprint=fp, analytic=an, precision=prec, nx=nx_, ny=ny_, domain=(2.0 * nx_, 2.0 * ny_), halo=rng.choice([2.0, 4.0]))
+        else:
+            c = sc.mk_case(rng, footprint=fp, analytic=an, precision=prec)
         cid = "S%d" % k
         cases[cid] = c
         cases[cid + "~"] = dict(c, precision="single" if prec == "double" else "double")
